@@ -16,7 +16,7 @@ import CalVerif.Spec.Formula
       `toks <ctx> | <tok>;<tok>;…`      → same reply shape for a raw token list (text = `-`)
     ctx    = `S=<hex>,<hex>… N=<hex>,… X=<int>,…`  sheet names / defined names (utf-8 hex; empty list: `S=`),
              XTI table as `itab_first` values.  The xlsb decoder receives the resolved extern-sheet table
-             (`sheets[itab_first]` for every XTI entry, `#REF!` when out of range, as the workbook reader builds it).
+             (`Formula.resolveExtern`: `sheets[itab_first]` for every XTI entry, the workbook reader's placeholders otherwise).
     result = `ok:<hex utf-8>` | `err:<hex of the Debug text of the error>` | `panic` | `fuel`
     PtgNum is printed as `<num:16 hex digits of the bits>` (the harness substitutes Rust's `Display`).
     expr   = prefix notation, space separated (see `parseExpr`). -/
@@ -78,9 +78,7 @@ def parseCtx : List String → Option WireCtx
 def WireCtx.xls (c : WireCtx) : Ctx := ⟨c.sheets, c.names, c.xtis, fmtNumPlaceholder⟩
 
 /-- extern-sheet table as `xlsb` builds it: one sheet name per XTI entry -/
-def WireCtx.xlsb (c : WireCtx) : Ctx :=
-  ⟨c.xtis.map fun it => if it < 0 then "#REF!".toList else (c.sheets[it.toNat]?).getD "#REF!".toList,
-   c.names, [], fmtNumPlaceholder⟩
+def WireCtx.xlsb (c : WireCtx) : Ctx := ⟨resolveExtern c.sheets c.xtis, c.names, [], fmtNumPlaceholder⟩
 
 def WireCtx.env (c : WireCtx) : Env :=
   ⟨fun ixti => match c.xtis[ixti]? with
